@@ -74,6 +74,9 @@ def typed_write(eng, p, st, v):
         t = eng.to_val(p, v)
         eng.oblige(p, 'store.typed.seed_type', fits_dyn(t), 'type')
         return t
+    if isinstance(v, Ref) and v.oid not in p.ghost.get('escaped', ()):
+        from .heapmodels import export_ref
+        export_ref(eng, p, v)
     return eng.to_val(p, v)
 
 
@@ -134,6 +137,9 @@ def store_call(eng, p, o, name, args, kws):
             p.store.marker[st.ord] = Store(m, idx, M_SET)
             p.store.value[st.ord] = Store(v, idx, t)
             return [(p, None)]
+    if name == 'set_topology':
+        p.calls.append(('store.set_topology', (eng.to_val(p, args[0]),)))
+        return [(p, None)]
     if name in ('get_map', 'add_map', 'del_map', 'iterate_map'):
         from . import mapmodel
         return mapmodel.map_call(eng, p, o, name, args, kws)
